@@ -85,6 +85,14 @@ def points(tier):
                 for wrap in ("NO", "YES"):
                     for pl in PLACEMENTS[::3] if wrap == "NO" else PLACEMENTS[::9]:
                         pts.append([nv, 0, "2x3", wrap, False, "strict", eng, pl, "all", False, lit])
+    # the same files read with mnemonic_case lower / preserve (the NULL item is then spelled 'null' / as in the file)
+    for case in ("lower", "preserve"):
+        for nv in (0, 6):
+            for pol in ("strict", "none"):
+                for eng in ("numpy", "normal"):
+                    for wrap in ("NO", "YES"):
+                        for pl in PLACEMENTS[::5] if wrap == "NO" else PLACEMENTS[::25]:
+                            pts.append([nv, 0, "2x3", wrap, False, pol, eng, pl, "all", False, None, case])
     for alt in ([0, 1, "2x3", "NO", False], [0, 2, "2x3", "NO", False], [0, 0, "3x2", "NO", False],
                 [0, 0, "2x3", "YES", False], [0, 0, "2x3", "NO", True], [1, 1, "3x2", "YES", True], [7, 2, "2x3", "NO", False],
                 [2, 1, "2x3", "NO", False]):
@@ -147,12 +155,14 @@ def check_point(pt):
     keep_numpy = pt[9] if len(pt) > 9 else False
     textfile, toks, kinds, nullv, r, c = build(pt)
     rkw = {"use_normal_engine_for_wrapped": False} if keep_numpy else {}
+    if len(pt) > 11 and pt[11]:
+        rkw["mnemonic_case"] = pt[11]
     nontriv = any(k != "o" for k in pl)
     ptd = {"nullv": nv, "hspell": hs, "shape": shape, "wrap": wrap, "text": text, "policy": pol, "engine": eng, "placement": pl}
 
     def V(clause, expected, observed, sig=None):
         return {"clause": clause, "sig": sig or "%s:null=%s:%s" % (pol, NULLS[nv][0], "wrap" if wrap == "YES" else "nowrap") + (":text" if text else "")
-                + (":declared=%s" % pt[8] if len(pt) > 8 and pt[8] != "all" else "") + (":keep-numpy" if keep_numpy else "") + (":literal-nan" if len(pt) > 10 and pt[10] is not None else ""),
+                + (":declared=%s" % pt[8] if len(pt) > 8 and pt[8] != "all" else "") + (":keep-numpy" if keep_numpy else "") + (":literal-nan" if len(pt) > 10 and pt[10] is not None else "") + (":case=" + pt[11] if len(pt) > 11 and pt[11] else ""),
                 "witness": {"point": pt, "text": textfile},
                 "expected": expected, "observed": observed, "size": len(textfile) + 10 * sum(k != "o" for k in pl),
                 "repro": "import lasio; print(lasio.read(%r, engine=%r, null_policy=%r, **%r).data)" % (textfile, eng, pol, rkw)}
